@@ -31,6 +31,20 @@ theorem shift_equivariance_unique (P : Prob ℝ) (T S : GField ℝ) (hnd : P.ndi
       S i j k = GField.rot P.Nt T i j k :=
   step_unique P.rot S (GField.rot P.Nt T) hs hst hdt hw hci hco hS (solves_rot P T hnd h2 hc hsol)
 
+/-- a temperature-dependent material (coefficients = point-wise functions of the previous field)
+commutes with the rotation, so equivariance carries over from step to step -/
+theorem material_law_rot (P : Prob ℝ) (a kfun : ℝ → ℝ)
+    (hc : ∀ i j k, P.c i j k = a (P.Tn i j k)) (hk : ∀ i j k, P.kk i j k = kfun (P.Tn i j k)) :
+    (∀ i j k, P.rot.c i j k = a (P.rot.Tn i j k)) ∧ (∀ i j k, P.rot.kk i j k = kfun (P.rot.Tn i j k)) :=
+  SrModel.Thermal.material_law_rot P a kfun hc hk
+
+/-- **shift_equivariance for whole histories** (every step and sub-step) -/
+theorem shift_equivariance_history (P : Nat → Prob ℝ) (T : Nat → GField ℝ)
+    (hnd : ∀ n, (P n).ndim ≥ 2) (h2 : ∀ n, 2 ≤ (P n).Nt) (hc : ∀ n, (P n).CPeriodicPt)
+    (hsol : ∀ n, (P n).Solves (T (n+1))) :
+    ∀ n, (P n).rot.Solves (GField.rot (P n).Nt (T (n+1))) :=
+  history_rot P T hnd h2 hc hsol
+
 /-- **axisym_2d_is_1d.** θ-independent data: the 1-D solution on every ray solves the 2-D step. -/
 theorem axisym_2d_is_1d (P : Prob ℝ) (T : GField ℝ) (Nt : Nat) (dth : ℝ) (h1 : P.ndim = 1)
     (hsol : P.Solves T) : (P.lift2 Nt dth).Solves (fun i _ k => T i 0 k) :=
